@@ -3,7 +3,7 @@ import ast
 
 from ..loader import AnalysisError, attr_path, src, walk_no_nested_defs, norm_stmt, call_name
 from ..symx import SymX, show, C, TRUE, FALSE, simp, is_const
-from ..genabs import Game, Poly, Undecided, position_cases, CaseEval, FRESH, P1, P2, PR
+from ..genabs import Game, Poly, Undecided, WrongRowCount, position_cases, CaseEval, FRESH, P1, P2, PR
 from . import C08, C02, shared
 
 EXPLANATION = (
@@ -427,6 +427,7 @@ def r3_wellformed(ctx, chk, rule="C11.3"):
         n_ent = n_bad = 0
         pnames = [p for p in G.func.params if p.startswith("prob_")]
         allowed_p = {Poly.sym(p) for p in pnames}
+        seen_rows = set()
         for b, block in enumerate(G.blocks):
             owner = _owner_at(pseg, b, case)
             for cs in cases:
@@ -435,6 +436,13 @@ def r3_wellformed(ctx, chk, rule="C11.3"):
                     for lt in (0, 1):
                         try:
                             ce, entry = G.entry(block, cs, m, lt)
+                        except WrongRowCount as e:
+                            if ("rows", gname, b) not in seen_rows:
+                                seen_rows.add(("rows", gname, b))
+                                chk.violation(rule, where, "block %d: %s" % (b, e), expected="one state per tile", found="several entries for one tile",
+                                              construct="%s block %d several entries per tile" % (gname, b))
+                            n_bad += 1
+                            continue
                         except Undecided as e:
                             chk.undecided(rule, where, "block %d: %s" % (b, e))
                             n_bad += 1
